@@ -1,0 +1,155 @@
+//! Verification hooks. This module and every call into it are compiled
+//! only with `--cfg agdb_verif`; without the flag nothing changes.
+
+use crate::DbError;
+use crate::StorageData;
+use crate::storage::Storage;
+use crate::storage::StorageIndex;
+use std::cell::RefCell;
+
+/// A mutating file-system call that is about to be issued.
+#[derive(Clone, Copy, Debug, PartialEq, Eq)]
+pub enum FsEventKind {
+    /// `write_all` on the data file at `pos` of `len` bytes
+    DataWrite,
+    /// `set_len(pos)` on the data file
+    DataSetLen,
+    /// `write_all` appending `len` bytes to the recovery log
+    WalWrite,
+    /// `set_len(pos)` on the recovery log
+    WalSetLen,
+    /// `write_all` on the data file while replaying the recovery log
+    RecoveryWrite,
+    /// `set_len(pos)` on the data file while replaying the recovery log
+    RecoverySetLen,
+}
+
+#[derive(Clone, Copy, Debug)]
+pub struct FsEvent {
+    pub kind: FsEventKind,
+    pub pos: u64,
+    pub len: u64,
+}
+
+type FsCallback = Box<dyn FnMut(&FsEvent)>;
+type ReadCallback = Box<dyn Fn(bool)>;
+
+thread_local! {
+    static FS_CALLBACK: RefCell<Option<FsCallback>> = const { RefCell::new(None) };
+    static READ_CALLBACK: RefCell<Option<ReadCallback>> = const { RefCell::new(None) };
+}
+
+/// Installs (or removes) the callback invoked on this thread immediately
+/// before every mutating file-system call of the file storage and its log.
+pub fn set_fs_callback(callback: Option<FsCallback>) {
+    FS_CALLBACK.with(|c| *c.borrow_mut() = callback);
+}
+
+pub(crate) fn fs_event(kind: FsEventKind, pos: u64, len: u64) {
+    let callback = FS_CALLBACK.with(|c| c.borrow_mut().take());
+
+    if let Some(mut callback) = callback {
+        callback(&FsEvent { kind, pos, len });
+        FS_CALLBACK.with(|c| {
+            let mut slot = c.borrow_mut();
+            if slot.is_none() {
+                *slot = Some(callback);
+            }
+        });
+    }
+}
+
+/// Installs (or removes) the callback invoked on this thread inside
+/// `FileStorage::read`: `true` while the shared handle guard is held,
+/// `false` on the fresh-handle path.
+pub fn set_read_callback(callback: Option<ReadCallback>) {
+    READ_CALLBACK.with(|c| *c.borrow_mut() = callback);
+}
+
+pub(crate) fn read_event(shared_handle: bool) {
+    READ_CALLBACK.with(|c| {
+        if let Some(callback) = c.borrow().as_ref() {
+            callback(shared_handle);
+        }
+    });
+}
+
+/// Public face of the crate private `Storage` for driving the storage
+/// layer directly.
+pub struct VerifStorage<D: StorageData>(Storage<D>);
+
+impl<D: StorageData> VerifStorage<D> {
+    pub fn new(name: &str) -> Result<Self, DbError> {
+        Ok(Self(Storage::new(name)?))
+    }
+
+    pub fn with_data(data: D) -> Result<Self, DbError> {
+        Ok(Self(Storage::with_data(data)?))
+    }
+
+    pub fn insert_bytes(&mut self, bytes: &[u8]) -> Result<u64, DbError> {
+        Ok(self.0.insert_bytes(bytes)?.0)
+    }
+
+    pub fn insert_bytes_at(
+        &mut self,
+        index: u64,
+        offset: u64,
+        bytes: &[u8],
+    ) -> Result<(), DbError> {
+        self.0.insert_bytes_at(StorageIndex(index), offset, bytes)
+    }
+
+    pub fn replace_with_bytes(&mut self, index: u64, bytes: &[u8]) -> Result<(), DbError> {
+        self.0.replace_with_bytes(StorageIndex(index), bytes)
+    }
+
+    pub fn resize_value(&mut self, index: u64, new_size: u64) -> Result<(), DbError> {
+        self.0.resize_value(StorageIndex(index), new_size)
+    }
+
+    pub fn move_at(&mut self, index: u64, from: u64, to: u64, size: u64) -> Result<(), DbError> {
+        self.0.move_at(StorageIndex(index), from, to, size)
+    }
+
+    pub fn remove(&mut self, index: u64) -> Result<(), DbError> {
+        self.0.remove(StorageIndex(index))
+    }
+
+    pub fn optimize_storage(&mut self) -> Result<(), DbError> {
+        self.0.optimize_storage()
+    }
+
+    pub fn transaction(&mut self) -> u64 {
+        self.0.transaction()
+    }
+
+    pub fn commit(&mut self, id: u64) -> Result<(), DbError> {
+        self.0.commit(id)
+    }
+
+    pub fn value_as_bytes(&self, index: u64) -> Result<Vec<u8>, DbError> {
+        Ok(self.0.value_as_bytes(StorageIndex(index))?.to_vec())
+    }
+
+    pub fn value_as_bytes_at_size(
+        &self,
+        index: u64,
+        offset: u64,
+        size: u64,
+    ) -> Result<Vec<u8>, DbError> {
+        Ok(self
+            .0
+            .value_as_bytes_at_size(StorageIndex(index), offset, size)?
+            .to_vec())
+    }
+
+    pub fn value_size(&self, index: u64) -> Result<u64, DbError> {
+        self.0.value_size(StorageIndex(index))
+    }
+
+    #[allow(clippy::len_without_is_empty)]
+    pub fn len(&self) -> u64 {
+        self.0.len()
+    }
+}
